@@ -50,7 +50,8 @@ for n, fs, k in PSI:
     e = "LET n == %s IN Eq(n, %s) /\\ FactorWitness(n, %s) /\\ (\\A i \\in 1..%d : SPRP(n, Base13[i]))" % (
         nat(n), " , ".join([]) or "FoldLeft(LAMBDA acc, f : Mul(acc, f), One, <<%s>>)" % ",".join(nat(f) for f in fs), nat(fs[0]), k)
     if k < 13:
-        e += " /\\ ~SPRP(n, Base13[%d]) /\\ ~IsPrimeMR(n)" % (k + 1 if n != 341550071728321 and n != 3825123056546413051 else (k + 1))
+        nxt = {7: 9, 9: 12}.get(k, k + 1)          # psi_7 = psi_8 and psi_9 = psi_10 = psi_11: the first base that exposes n
+        e += " /\\ ~SPRP(n, Base13[%d]) /\\ ~IsPrimeMR(n)" % nxt
     else:
         e += " /\\ ~Decidable(n) /\\ Eq(n, MRBound)"
     add("psi_%d" % k, e)
@@ -87,7 +88,7 @@ add("next_prime", " /\\ ".join([
     "NextPrimeIs(OfInt(8), TRUE, OfInt(11), 10)", "NextPrimeIs(OfInt(14), FALSE, Zero, 10)", "NextPrimeIs(OfInt(24), TRUE, OfInt(29), 10)",
     "NextPrimeIs(OfInt(65522), FALSE, Zero, 100)", "NextPrimeIs(OfInt(65500), TRUE, OfInt(65519), 100)",
     "~NextPrimeIs(OfInt(90), TRUE, OfInt(101), 100)", "NextPrime(OfInt(1328), 3).done = FALSE",
-    "NextPrimeIs(%s, TRUE, %s, 100)" % (nat((1 << 64) - 100), nat((1 << 64) - 59)), "NextPrimeIs(%s, FALSE, Zero, 100)" % nat((1 << 64) - 58)]))
+    "NextPrimeIs(%s, TRUE, %s, 100)" % (nat((1 << 64) - 82), nat((1 << 64) - 59)), "NextPrimeIs(%s, TRUE, %s, 100)" % (nat((1 << 64) - 94), nat((1 << 64) - 83)), "NextPrimeIs(%s, TRUE, %s, 100)" % (nat((1 << 64) - 100), nat((1 << 64) - 95)), "NextPrimeIs(%s, FALSE, Zero, 100)" % nat((1 << 64) - 58)]))
 add("sieve_smooth", " /\\ ".join([
     "IsSieved(One, 10)", "~IsSieved(OfInt(3), 1)", "IsSieved(OfInt(3), 0)", "~IsSieved(OfInt(2), 0)", "~IsSieved(Zero, 0)", "IsSieved(OfInt(37), 10)", "~IsSieved(OfInt(31), 10)",
     "~IsSieved(OfInt(35), 2)", "IsSieved(OfInt(49), 2)", "~IsSieved(OfInt(49), 3)",
@@ -124,7 +125,7 @@ add("stb99_longest_chains", "Stb99SeedVal([l |-> 2462, zi |-> %s, di |-> <<1897,
 add("stb99_di0_over", "~Stb99SeedVal([l |-> 2462, zi |-> %s, di |-> HalfChain(1898, 18), ri |-> HalfChain(257, 10)]) /\\ Stb99SeedVal([l |-> 2462, zi |-> %s, di |-> HalfChain(1897, 18), ri |-> HalfChain(257, 10)])" % (zi, zi))
 add("pfok_longest_chain", "PfokSeedVal([l |-> 2942, zi |-> %s, li |-> <<2941,2349,1875,1496,1193,951,757,602,478,379,299,235,184,143,111,85,64,47,34,23>>])" % zi)
 add("seed_adj_default", "LET a == Stb99SeedAdj([l |-> 638, zi |-> [i \\in 1..31 |-> 0], di |-> [i \\in 1..18 |-> 0], ri |-> [i \\in 1..10 |-> 0]]) IN a[1] /\\ a[2].zi = [i \\in 1..31 |-> i] /\\ a[2].di[1] = 320 /\\ a[2].ri[1] = 143 /\\ a[2].di[2] = 161")
-add("chain_rules", "LinkD(33, 17) /\\ ~LinkD(26, 17) /\\ LinkD(34, 17) /\\ ~LinkD(35, 17) /\\ LinkR(22, 17) /\\ ~LinkR(21, 17) /\\ LinkR(257, 205) /\\ ~LinkD(257, 205) /\\ ~LinkD(27, 18) /\\ LinkD(27, 17)")
+add("chain_rules", "LinkD(33, 17) /\\ LinkD(26, 17) /\\ ~LinkD(25, 17) /\\ LinkD(34, 17) /\\ ~LinkD(35, 17) /\\ LinkR(22, 17) /\\ ~LinkR(21, 17) /\\ LinkR(257, 205) /\\ ~LinkD(257, 205) /\\ ~LinkD(26, 18) /\\ LinkD(27, 18) /\\ LinkD(27, 17)")
 # ---- standard parameter sets: cheap conditions of the small sets
 def rec_bign(r):
     no = 24 if r["l"] == 96 else r["l"] // 4
